@@ -120,21 +120,30 @@ class PendingByteSrc(ByteSrc):
 
 
 def drive_with_feed(coro, stream, data):
-    """Run the coroutine up to its (single) suspension inside the wrapped stream, feed data into
-    the buffer while it is pending, then let it finish."""
-    try:
-        coro.send(None)
-    except StopIteration as e:
-        return ("ok", e.value), False
-    except (EndOfStream, IncompleteRead, DelimiterNotFound, ValueError) as e:
-        return ("exc", type(e).__name__), False
-    stream.feed_data(data)
-    return drive(coro), True
+    """Run the coroutine; at its first suspension inside the wrapped stream feed data into the
+    buffer (the call is pending), then let it finish (later suspensions are just resumed)."""
+    fed = False
+    for _ in range(500):
+        try:
+            coro.send(None)
+        except StopIteration as e:
+            return ("ok", e.value), fed
+        except (EndOfStream, IncompleteRead, DelimiterNotFound, ValueError) as e:
+            return ("exc", type(e).__name__), fed
+        except BaseException as e:
+            return ("exc", "UNEXPECTED " + type(e).__name__ + ": " + str(e)[:60]), fed
+        if not fed:
+            stream.feed_data(data)
+            fed = True
+    coro.close()
+    return ("exc", "UNEXPECTED no progress"), fed
 
 
 def ops():
     out = [("receive", n) for n in RECV_N]
     out += [("receive_feed", n, x) for n in (1, 2, 65536) for x in FEED]
+    out += [("exactly_feed", n, x) for n in (1, 2, 3) for x in FEED]
+    out += [("until_feed", d, m, x) for d in (b"a", b"ab") for m in (2, 4) for x in FEED]
     out += [("receive_exactly", n) for n in EXACT_N]
     out += [("receive_until", d, m) for d in DELIMS for m in MAXB]
     out += [("feed_data", x) for x in FEED]
@@ -146,7 +155,7 @@ OPS = ops()
 
 def step(state, op):
     kind, buf, chunks = state
-    if op[0] == "receive_feed":
+    if op[0].endswith("_feed"):
         src = (PendingByteSrc if kind == "byte" else PendingObjSrc)(chunks)
     else:
         src = (ByteSrc if kind == "byte" else ObjSrc)(chunks)
@@ -155,6 +164,12 @@ def step(state, op):
         s.feed_data(buf)
     if op[0] == "receive_feed":
         res, fed = drive_with_feed(s.receive(op[1]), s, op[2])
+        return res + (fed,), (kind, s.buffer, tuple(src.chunks))
+    if op[0] == "exactly_feed":
+        res, fed = drive_with_feed(s.receive_exactly(op[1]), s, op[2])
+        return res + (fed,), (kind, s.buffer, tuple(src.chunks))
+    if op[0] == "until_feed":
+        res, fed = drive_with_feed(s.receive_until(op[1], op[2]), s, op[3])
         return res + (fed,), (kind, s.buffer, tuple(src.chunks))
     if op[0] == "receive":
         res = drive(s.receive(op[1]))
@@ -188,6 +203,27 @@ def oracle(state, op, res, new):
             return (f"receive({op[1]}) with feed_data({op[2]!r}) while it was waiting: had "
                     f"{R!r} unread, returned {out!r} ({res[1] if res[0] != 'ok' else 'ok'}), "
                     f"unread now {R2!r} - bytes were dropped or duplicated")
+        return None
+    if o in ("exactly_feed", "until_feed"):
+        # same conservation rule for the multi-read calls: whatever they hand out (plus, for
+        # receive_until, the delimiter they consume) and what stays unread is what was there
+        fed = res[2]
+        x = op[2] if o == "exactly_feed" else op[3]
+        before = R + (x if fed else b"")
+        if res[0] == "ok":
+            out = res[1] + (op[1] if o == "until_feed" else b"")
+            if o == "exactly_feed" and len(res[1]) != op[1]:
+                return f"receive_exactly({op[1]}) returned {len(res[1])} bytes"
+            if o == "until_feed" and op[1] in res[1]:
+                return f"receive_until({op[1]!r}) returned the delimiter inside {res[1]!r}"
+        else:
+            out = b""
+            if res[1].startswith("UNEXPECTED"):
+                return f"{op} raised {res[1]}"
+        if sorted(out + R2) != sorted(before):
+            return (f"{o[:-5]}{op[1:-1]} with feed_data({x!r}) while it was waiting: had {R!r} "
+                    f"unread, handed out {out!r} ({res[1] if res[0] != 'ok' else 'ok'}), unread "
+                    f"now {R2!r} - bytes were dropped or duplicated")
         return None
     if o == "feed_data":
         if new[1] != buf + op[1] or new[2] != chunks:
@@ -280,7 +316,7 @@ def bfs(args):
         nxt = []
         for st in frontier:
             for op in OPS:
-                if op[0] in ("feed_data", "receive_feed") and (
+                if (op[0] == "feed_data" or op[0].endswith("_feed")) and (
                         len(st[1]) + sum(map(len, st[2])) >= maxtotal):
                     continue
                 try:
@@ -432,8 +468,10 @@ def check_text(maxlen):
                         if len(bad) >= 5:
                             return n, len(classes), bad
             # send side: every way of cutting the string into pieces sent one by one, re-chunked
-            for pieces, fail_at in [(pc, f) for pc in chunkings(tuple(s))
-                                    for f in [None] + list(range(1, len(pc)))]:
+            for pieces, fail_at, errs_at in [(pc, f, ea) for pc in chunkings(tuple(s))
+                                             for f in [None] + list(range(1, len(pc)))
+                                             for ea in ([None] + list(range(1, len(pc)))
+                                                        if f is None else [None])]:
                 # (fail_at: that send() - not the first one, whose loss would take the byte
                 # order mark with it - fails in the transport without delivering anything; the
                 # text of the sends that succeeded must still come out unchanged)
@@ -441,6 +479,8 @@ def check_text(maxlen):
                 ss = TextSendStream(pipe, encoding=enc)
                 delivered = []
                 for k, p in enumerate(pieces):
+                    if k == errs_at:
+                        ss.errors = "replace"  # the public attribute may be changed at any time
                     try:
                         r = drive(ss.send("".join(p)))
                     except Suspended:
@@ -467,7 +507,7 @@ def check_text(maxlen):
                     if "".join(got) != s_expected:
                         bad.append({"text": s, "encoding": enc,
                                     "pieces": ["".join(p) for p in pieces],
-                                    "failed_send": fail_at,
+                                    "failed_send": fail_at, "errors_changed_before": errs_at,
                                     "what": f"TextSendStream -> TextReceiveStream gave "
                                             f"{''.join(got)!r} instead of {s_expected!r}"})
                         if len(bad) >= 5:
